@@ -64,16 +64,13 @@ def as_list(o, v, what="bytes-like"):
 
 
 def concretize(o, n, limit, what):
-    """concrete value of a (small) symbolic integer by forking; beyond `limit` -> out of subset"""
+    """concrete value of a symbolic integer by forking over its feasible values; beyond `limit` -> out of subset"""
     if not is_sym(n):
         return n
-    n = b2i(n)
-    if o.path.decide(mk_cmp("lt", n, 0)):
-        return -1
-    for k in range(0, limit + 1):
-        if o.path.decide(Eq(n, k)):
-            return k
-    raise Unsupported("%s not bounded by %d" % (what, limit))
+    v = o.path.pick_value(n, what)
+    if v > limit:
+        raise Unsupported("%s not bounded by %d" % (what, limit))
+    return v
 
 
 def byte_check(o, v):
